@@ -300,3 +300,8 @@ PROPS["C19"]["thorough"].append({"variant": "miri", "cases": 16, "params": {"mod
 PROPS["C17"]["thorough"].append({"variant": "miri", "cases": 16, "params": {"len": 60}, "shards": 16, "timeout": 2400})
 PROPS["C08"]["thorough"].append({"variant": "miri", "cases": 48, "params": {"mode": "hist"}, "shards": 16, "timeout": 2400})
 PROPS["C20"]["thorough"].append({"variant": "miri", "cases": 16, "params": {"processes": 0}, "shards": 16, "timeout": 2400})
+
+# C11 also names analysis data among the observables: the C14 world (product analysis over LArith) replayed under a renaming
+PROPS["C11"]["quick"].append({"variant": "default", "cases": 3000, "params": {"renamed": 1}, "worker_prop": "C14", "timeout": 900})
+PROPS["C11"]["thorough"].append({"variant": "default", "cases": 100000, "params": {"renamed": 1, "case_timeout": 120}, "worker_prop": "C14", "timeout": 3400})
+PROPS["C11"]["floors"]["any"]["renamed_runs"] = 1500
